@@ -21,7 +21,7 @@ DETECTORS = {'curvature': 3, 'dfdt': 3, 'menger': 4, 'lmethod': 4, 'kneedle': 3}
 
 @st.composite
 def cases(draw, tier):
-    c = draw(S.curves(2, 60 if tier == 'quick' else 300))
+    c = draw(S.curves(2, 60 if tier == 'quick' else 300, big_n=160 if tier == 'quick' else 600))
     det = draw(st.sampled_from(sorted(DETECTORS)))
     mode = draw(st.sampled_from(['zero', 'occurring', 'occurring', 'std']))
     if mode == 'zero':
